@@ -18,7 +18,7 @@ Section HistProofs.
 
   Ltac split_goal sch :=
     repeat match goal with
-           | |- context [sch ?s] => destruct (sch s) as [[[|] ?]|] eqn:?; cbn [fkind fdisk]
+           | |- context [sch ?s] => destruct (sch s) as [?|] eqn:?
            end.
 
   (** ** What an unclean failure can leave in the target *)
@@ -38,8 +38,8 @@ Section HistProofs.
   Proof.
     intros sh ev new sch b k s Hnew.
     unfold body2, body_tr, inner_tr, close_tr, write_tr, dumps_at, dumps_res, debris.
-    destruct ev as [at_ en em ep ef].
-    destruct sh as [[| |]| |], new as [c|], ef as [d|]; try (exfalso; apply Hnew; reflexivity); clear Hnew; cbn;
+    destruct ev as [at_ en em ep ef el].
+    destruct sh as [[| |]| |], new as [c|], ef as [d|], el; try (exfalso; apply Hnew; reflexivity); clear Hnew; cbn;
       split_goal sch; cbn; intros Hr; try discriminate;
       first [ left; reflexivity
             | right; left; reflexivity
